@@ -349,7 +349,7 @@ def wellBody (ret : Ty) : TEnv → List Stmt → Bool
       | some v => wellBody ret (σ.set t v) ss
       | none => true)
   | σ, .ret e :: _ => wellT σ e && wellRet ret (semT σ e)
-  | σ, .expr e :: ss => wellT σ e && wellBody ret σ ss
+  | σ, .expr _ :: ss => wellBody ret σ ss
   | _, .unsupported _ :: _ => true
 
 def wellProg (p : Prog) (ρ : String → Bool) : Bool := wellBody p.ret (argsEnvT p.args ρ) p.body
